@@ -19,7 +19,8 @@ def main():
         "C18", a.tier, a.seed, mods, jobs=min(a.jobs, 12),
         functions=["func_adl_xAOD.common.executor.executor.apply_ast_transformations + query_ast_visitor (whole visitor + emitter, real code, per backend)",
                    "func_adl_xAOD.common.ast_to_cpp_translator.query_ast_visitor.visit_Constant (AST -> z3 for the numeric branches)",
-                   "func_adl_xAOD.common.cpp_ast.process_ast_node (with the re.sub shim of harness/ch/h_common.py)"],
+                   "func_adl_xAOD.common.cpp_ast.process_ast_node (with the re.sub shim of harness/ch/h_common.py)",
+                   "func_adl_xAOD.common.cpp_vars.cpp_string_literal (AST -> z3 LIA over code points, inductive step, every string length)"],
         explanation="strings: for symbolic s of each exact length in each position (bank name x3 backends, method string argument, attribute name, column name x3, "
                     "tree name x2, First() message) either translation raises or the C++ literal at that position, read back by an independent C++ "
                     "string-literal lexer, denotes exactly s (CrossHair, full Unicode); ints: for ALL integers (unbounded, z3 on the AST of visit_Constant) an "
@@ -74,6 +75,29 @@ def main():
                 rep.inconc(ob["name"], f"solver witness {w!r} does not reproduce")
         else:
             rep.inconc(ob["name"], ob["detail"])
+    # string-literal kernel (engine C): inductive step over code points, strings of every length
+    from ..strk import strlit
+    for ob in strlit.obligations():
+        rep.obligations += 1
+        rep.solver_seconds += ob["seconds"]
+        if ob["status"] == "holds":
+            rep.discharged += 1
+        elif ob["status"] == "cex":
+            ok_, text_ = strlit.replay(ob["witness"])
+            if ok_:
+                d = chcheck.REPLAYS / "C18" / "string_literal_kernel"
+                d.mkdir(parents=True, exist_ok=True)
+                (d / "finding.json").write_text(json.dumps({"obligation": ob["name"], "witness": ob["witness"], "text": text_,
+                                                            "replay": "func_adl_xAOD.common.cpp_vars.cpp_string_literal on the witness string, read back by vlib.strk.strlit.cpp_literal_bytes"}, indent=1))
+                rep.violation(f"{ob['name']}: {text_}", d)
+            else:
+                rep.spurious.append((ob["name"], str(ob["witness"]), text_))
+                rep.inconc(ob["name"], f"solver witness {ob['witness']} does not reproduce: {text_}")
+        else:
+            rep.inconc(ob["name"], ob["detail"])
+    cov["string_literal_kernel"] = ("z3 (LIA over code points 0..0x10FFFF): cpp_vars.cpp_string_literal translated from its AST; inductive step "
+                                    "'a C++ lexer at piece(c)++piece(c2)++quote reads exactly c and consumes exactly piece(c)' => literal denotes s for every length; "
+                                    "UTF-8 source/execution character set assumed; numeric escapes >= 0x80 are bytes, not code points")
     # several literals in one query (engine A: value and kind of every column, all events)
     from ..tv import gen
     from ..tv.translate import BACKENDS
@@ -87,7 +111,7 @@ def main():
     cleanup_scratch()
     cov["literal_interplay_programs"] = {"programs": tvcov["programs"], "statuses": tvcov["program_statuses"]}
     cov["numeric_kernel"] = "z3: int range obligation over unbounded Int; float repr language inclusion in C++ floating-literal grammar; bool exhaustive"
-    cov["bounds"] = {"string_length": "0..1 quick, 0..2 thorough (3 for three positions)", "alphabet": "all of Unicode (CrossHair str)", "ints": "unbounded", "floats": "syntactic class only"}
+    cov["bounds"] = {"string_length": "whole pipeline: 0..1 quick, 0..2 thorough (3 for three positions); literal writer alone: every length (inductive step)", "alphabet": "all of Unicode (CrossHair str)", "ints": "unbounded", "floats": "syntactic class only"}
     sys.exit(rep.finish(cov, assumptions + [
         "float VALUE fidelity (shortest round-trip repr + correctly rounded strtod) is trusted, only the literal's syntactic class is decided",
         "the re.sub shim in harness/ch/h_common.py replaces cpp_ast.re during the CrossHair runs (CrossHair's own re.sub model realises the replacement); it is compared with the real re.sub on a concrete battery at every run",
